@@ -169,6 +169,11 @@ func c20Flags(rel string) []string {
 	return res
 }
 
+func cl0() *ast.File {
+	_, f := parseFile("http/client/client.go")
+	return f
+}
+
 func extractC20() *lean {
 	l := newLean("C20")
 	// core/url.go: reserved names
@@ -296,6 +301,37 @@ func extractC20() *lean {
 	})
 	l.def("clientStrictAssignments", "List String", leanStrList(hset), hset)
 
+	// auth.go: is the IAM client's strict flag (auth.strictMode) ever assigned, and from what?
+	_, au := parseFile("auth/auth.go")
+	var authAssign []string
+	ast.Inspect(au, func(n ast.Node) bool {
+		if as, ok := n.(*ast.AssignStmt); ok && len(as.Lhs) == 1 && len(as.Rhs) == 1 && c20Cond(as.Lhs[0]) == "auth.strictMode" {
+			authAssign = append(authAssign, c20Cond(as.Rhs[0]))
+		}
+		return true
+	})
+	l.def("authStrictModeAssignments", "List String", leanStrList(authAssign), authAssign)
+	var iamArgs []string
+	ast.Inspect(au, func(n ast.Node) bool {
+		if c, ok := n.(*ast.CallExpr); ok && c20Cond(c.Fun) == "iam.NewClient" {
+			for _, a := range c.Args {
+				iamArgs = append(iamArgs, c20Cond(a))
+			}
+		}
+		return true
+	})
+	l.def("iamNewClientArgs", "List String", leanStrList(iamArgs), iamArgs)
+	// is the redirect check a package-level function that reads the global at call time?
+	readsGlobal := false
+	if fd := funcDecl(cl0(), "checkRedirect"); fd != nil {
+		ast.Inspect(fd.Body, func(n ast.Node) bool {
+			if id, ok := n.(*ast.Ident); ok && id.Name == "StrictMode" {
+				readsGlobal = true
+			}
+			return true
+		})
+	}
+	l.def("checkRedirectReadsGlobalAtCallTime", "Bool", fmt.Sprint(readsGlobal), readsGlobal)
 	// http/client: CheckRedirect of every http.Client literal and the check's refusing conditions
 	_, cl := parseFile("http/client/client.go")
 	var crs []string
